@@ -9,6 +9,9 @@ func init() {
 	reg(&checkSpec{
 		ID: "C21", Harness: "reads", Inst: readsPkgs, Level: "exploration",
 		Classes: []string{"C21:", "deadlock", "busy-wait", "panic"},
+		// the group-by sort copies tags into 4096-entry arenas: a simulated dataset (a dozen series) never fills one.
+		// With 16 entries arena turnover happens in every group read.
+		Knobs: map[string][2]string{"storage/reads/group_resultset.go": {"tagsBuf := &tagsBuffer{sz: 4096}", "tagsBuf := &tagsBuffer{sz: 16}"}},
 		Cfgs: []cfgSpec{
 			{Name: "concurrent-writers-one-reader", Cfg: "clients=3,wdel=3", Gating: true, Share: 3},
 			{Name: "quiescent-single-client-with-reopen", Cfg: "clients=1,noreader,wdel=4,wmeta=2,reopen", Gating: true, Share: 2},
